@@ -66,9 +66,9 @@ func c10GenProgText(r *rand.Rand, idx int) string {
 	b.WriteString("routing {\n")
 	switch idx {
 	case 0: // no domain rule at all: every name gets the all-zero bitmap
-		b.WriteString("  dport(80) -> g0\n  dip(10.0.0.0/8) -> g1\n")
+		b.WriteString("  dport(80) -> " + verifGroups[0] + "\n  dip(10.0.0.0/8) -> " + verifGroups[1] + "\n")
 	case 1: // every name gets the same one-bit bitmap
-		b.WriteString("  domain(suffix: test) -> g0\n")
+		b.WriteString("  domain(suffix: test) -> " + verifGroups[0] + "\n")
 	default:
 		n := 1 + r.IntN(5)
 		for i := 0; i < n; i++ {
@@ -235,11 +235,32 @@ type c10Gate struct {
 	hits2   int64
 	parked  int64
 	parked2 int64
+	hits3   int64
+	parked3 int64
+}
+
+// waitGuardParked gives the worker up to d to arrive at the guard point (it runs on its own goroutine).
+func (g *c10Gate) waitGuardParked(from int64, d time.Duration) {
+	deadline := time.Now().Add(d)
+	for time.Now().Before(deadline) {
+		g.mu.Lock()
+		n, ok := g.parked3, g.closed && g.point == c10PointGuard
+		g.mu.Unlock()
+		if !ok || n > from {
+			return
+		}
+		time.Sleep(100 * time.Microsecond)
+	}
 }
 
 const (
 	c10PointTask    = "dns-bpf-update-task"
 	c10PointRefresh = "dns-bpf-update-refresh"
+	// right after the refresh guard of domainRoutingTracker.syncOwnerIf said "still published".
+	// In the tree as it is this point lies inside the tracker's lock, so whoever mutates the same
+	// key meanwhile waits for the refresh; the worker is therefore parked here for a bounded time
+	// only (an operation that could overtake it does so within that time).
+	c10PointGuard = "drt-guard-passed"
 )
 
 func newC10Gate() *c10Gate {
@@ -249,6 +270,28 @@ func newC10Gate() *c10Gate {
 }
 
 func (g *c10Gate) hook(point string) {
+	if point == c10PointGuard {
+		g.mu.Lock()
+		g.hits3++
+		park := g.closed && g.point == c10PointGuard
+		if park {
+			g.parked3++
+		}
+		g.mu.Unlock()
+		if park {
+			deadline := time.Now().Add(25 * time.Millisecond)
+			for time.Now().Before(deadline) {
+				g.mu.Lock()
+				still := g.closed
+				g.mu.Unlock()
+				if !still {
+					break
+				}
+				time.Sleep(200 * time.Microsecond)
+			}
+		}
+		return
+	}
 	if point != c10PointTask && point != c10PointRefresh {
 		return
 	}
@@ -298,18 +341,21 @@ type c10Env struct {
 	pending *c10Answer // what the stub upstream answers next
 	hookOK  bool       // yield point dns-bpf-update-task present in the tree under test
 	hook2OK bool       // yield point dns-bpf-update-refresh present (comes with the liveness re-check)
+	hook3OK bool       // yield point drt-guard-passed present
 }
 
 type c10World struct {
-	env    *c10Env
-	h      *c10Hist
-	cp     *ControlPlane
-	ctrl   *DnsController
-	core   *controlPlaneCore
-	cancel context.CancelFunc
-	gen    int
-	prog   int // routing program of the running generation
-	cfg    int // cache config (dns section) of the running generation
+	env       *c10Env
+	guardTurn int
+	guardFrom int64
+	h         *c10Hist
+	cp        *ControlPlane
+	ctrl      *DnsController
+	core      *controlPlaneCore
+	cancel    context.CancelFunc
+	gen       int
+	prog      int // routing program of the running generation
+	cfg       int // cache config (dns section) of the running generation
 
 	cloneRef  map[c10Key]c10Bm // reload-reuse: what the replayed clone snapshot alone would put in the table
 	latent    bool             // reload-reuse left the tracker's owner table different from the adopted cache
@@ -824,6 +870,8 @@ func (w *c10World) apply(i int, op *c10Op) (err error) {
 	}()
 	c := w.ctrl
 	now := time.Now()
+	// a worker that is to be overtaken after the refresh guard must first get there
+	w.env.gate.waitGuardParked(w.guardFrom, 10*time.Millisecond)
 	switch op.Kind {
 	case "query":
 		w.env.pendMu.Lock()
@@ -906,7 +954,14 @@ func (w *c10World) release() {
 func (w *c10World) holdWorker(delay int, afterLivenessCheck bool) {
 	if delay > 0 && w.env.hookOK {
 		if w.gateLeft == 0 { // a gate that is already closed keeps its parking point
-			if afterLivenessCheck && w.env.hook2OK {
+			w.guardTurn++
+			if afterLivenessCheck && w.env.hook3OK && w.guardTurn%2 == 0 {
+				w.env.gate.mu.Lock()
+				w.guardFrom = w.env.gate.parked3
+				w.env.gate.mu.Unlock()
+				w.env.gate.closeAt(c10PointGuard)
+				w.count("async_tasks_held_back_after_refresh_guard", 1)
+			} else if afterLivenessCheck && w.env.hook2OK {
 				w.env.gate.closeAt(c10PointRefresh)
 				w.count("async_tasks_held_back_after_liveness_check", 1)
 			} else {
@@ -1377,6 +1432,7 @@ func TestVerifC10(t *testing.T) {
 		env.gate.mu.Lock()
 		env.hookOK = env.gate.hits > 0
 		env.hook2OK = env.gate.hits2 > 0
+		env.hook3OK = env.gate.hits3 > 0
 		env.gate.mu.Unlock()
 		if !env.hookOK {
 			m.Count("yield_point_absent_async_worker_never_held_back", 1)
